@@ -27,6 +27,8 @@ type producer struct {
 }
 
 type Gen struct {
+	// OnCall, when set, is told about every constructor / method call made while generating a value
+	OnCall    func(name, owner string, typ reflect.Type, isMethod bool, args []reflect.Value, out reflect.Value, prog string)
 	Rng       *rand.Rand
 	Pool      []any
 	producers []*producer
@@ -285,7 +287,9 @@ var aliasPool = []string{"x", "y", "al", "t2", `"A"`, "sub"}
 var opPool = []string{"=", "<", ">", "<=", ">=", "<>", "+", "-", "*", "/", "%", "^", "||", "->", "->>", "#>", "@>", "<@", "~", "!~",
 	"AND", "OR", "LIKE", "IS", "&&", "&", "|", "<<", "IN", "NOT", "::", "."}
 var strPool = []string{"", "foo", "it's", `back\slash`, "a'b\\c", "new\nline", "$1", "/* c */", "-- c", "é", "\xff\xfe", "E'x", "%x_", `\'`, "''", "a\x00b", ";"}
-var bindPool = []string{"a", "b", "id", "name", "", "weird name", "ü", "a'b", "$1"}
+var bindPool = []string{"a", "b", "id", "name", "", "weird name", "ü", "a'b", "$1",
+	// names that differ from another pool name only by a sigil, case or blanks: a key is a byte string, nothing else
+	"@id", "@a", ":a", "$a", "A", " a", "a ", "Name", "@"}
 var funcNames = []string{"f", "lower", "generate_series", "my_fn", "json_to_record", "unnest"}
 var fieldPool = []string{"year", "epoch", "DOW", "month"}
 var intPool = []int64{0, 1, -1, 2, 7, 42, 100, -100, math.MaxInt64, math.MinInt64, 1 << 31, -(1 << 31) - 1}
@@ -367,15 +371,25 @@ func (g *Gen) Gen(t reflect.Type, depth int, hint string) (val Val, ok bool) {
 		return Val{reflect.ValueOf(f), fmt.Sprintf("float64(%v)", f)}, true
 	case reflect.Slice:
 		n := g.Rng.Intn(g.MaxList + 1)
-		if depth <= 0 && n > 1 {
-			n = 1
-		}
-		if depth < -2 {
-			n = 0
+		// leaves (values to bind, strings) cost no depth: their lists keep their length at any depth
+		leafElems := (t.Elem().Kind() == reflect.Interface && t.Elem().NumMethod() == 0) || t.Elem().Kind() == reflect.String
+		if !leafElems {
+			if depth <= 0 && n > 1 {
+				n = 1
+			}
+			if depth < -2 {
+				n = 0
+			}
 		}
 		s := reflect.MakeSlice(t, 0, n)
 		var parts []string
 		for i := 0; i < n; i++ {
+			// now and then an element is the one before it again: equal elements are still separate elements
+			if i > 0 && g.Rng.Intn(5) == 0 {
+				s = reflect.Append(s, s.Index(i-1))
+				parts = append(parts, parts[i-1])
+				continue
+			}
 			e, ok := g.Gen(t.Elem(), depth-1, hint)
 			if !ok {
 				return Val{}, false
@@ -523,6 +537,13 @@ func (g *Gen) call(p *producer, depth int) (val Val, ok bool) {
 		out = p.fn.Call(args)
 	}
 	g.Stats["call:"+p.name]++
+	if g.OnCall != nil {
+		owner := ""
+		if p.recv != nil {
+			owner = methodOwner(p.recv, p.name[strings.IndexByte(p.name, '.')+1:])
+		}
+		g.OnCall(p.name, owner, p.typ, p.recv != nil, args, out[0], prog)
+	}
 	return Val{out[0], prog}, true
 }
 
